@@ -249,7 +249,7 @@ more('C03', 'interpretation follows module-level helpers and @property of the cl
 more('C04', 'interpretation of _extract_phase on a grid', 'C04.k the global phase operation is left out only when the phase is 1 (shift * exponent an even integer)')
 more('C07', 'provenance rule on the exhaustive fallback of Gateset.__contains__', 'C07.j the last-resort search iterates a field holding every family, never the values of an index keyed by gate; C07.k a measurement re-created from the qubits of an existing one forwards or refuses its invert mask and confusion map')
 more('C09', 'interpretation of the measurement-moment predicate; must-pass-through on configured durations',
-     'C09.l validate_all_measurements: all measurements -> True, none / empty -> False, mixed -> raise; C09.m ThermalNoiseModel consults gate_durations_ns before a wait gate\'s own duration')
+     'C09.l validate_all_measurements: all measurements -> True, none / empty -> False, mixed -> raise; C09.m ThermalNoiseModel consults gate_durations_ns before a wait gate\'s own duration; C09.n functions that take matrices from the protocols and size by 2**n / 4**n also consult the dimensions (exceptions tabled)')
 more('C19', 'interpretation of MeasurementGate._qasm_ over all masks and both language versions', 'C19.h (extended) statement k measures qubit k into bit k; exactly the inverted positions are wrapped in x statements')
 more('C20', 'retry table by interpretation over (code, request kind); canonical form for the execution-loop shape rule',
      'C20.d every (error code, kind of current request) pair gives the request that makes the job run once, everything else raises; C20.a is applied after inlining simple helpers and folding single-use locals')
